@@ -115,3 +115,66 @@ Proof.
     change (path_valid es (cur :: y :: q')) with (has_edge es cur y && path_valid es (y :: q')). rewrite Cc, andb_true_r.
     unfold has_edge. apply existsb_exists. exists (cur, y, tid, fw). split; [exact He|]. rewrite !Z.eqb_refl. reflexivity.
 Qed.
+
+(* ---- completeness of the enumeration: every simple walk from cur to tgt that avoids `visited` and fits the fuel is listed ---- *)
+Lemma has_edge_In es a b : has_edge es a b = true -> exists tid fw, In (a, b, tid, fw) es.
+Proof.
+  unfold has_edge. rewrite existsb_exists. intros [[[[x y] tid] fw] [Hin H]]. apply andb_prop in H. destruct H as [H1 H2].
+  apply Z.eqb_eq in H1, H2. subst. eauto.
+Qed.
+
+Theorem simple_paths_complete fuel es : forall cur tgt visited p,
+  hd (-1)%Z p = cur -> p <> [] -> last p (-1)%Z = tgt -> path_valid es p = true -> NoDup p ->
+  (forall v, In v p -> ~ In v visited) -> (length p <= fuel)%nat ->
+  In p (simple_paths fuel es cur tgt visited).
+Proof.
+  induction fuel as [|f IH]; intros cur tgt visited p Hhd Hne Hlast Hval Hnd Hvis Hlen.
+  - destruct p; [contradiction | simpl in Hlen; lia].
+  - destruct p as [|c q]; [contradiction|]. simpl in Hhd. subst c. cbn [simple_paths].
+    destruct (Z.eqb_spec cur tgt) as [E|N].
+    + (* a simple walk that starts at its target is the one-node walk *)
+      destruct q as [|y q']; [left; reflexivity|]. exfalso.
+      assert (Hl : last (cur :: y :: q') (-1)%Z = last (y :: q') (-1)%Z) by reflexivity. rewrite Hl in Hlast.
+      assert (Hnin : ~ In cur (y :: q')) by (inversion Hnd; assumption). apply Hnin. rewrite E at 1. rewrite <- Hlast.
+      assert (forall (l : list Z) d, l <> [] -> In (last l d) l) as Hin.
+      { induction l as [|a l IHl]; intros d Hl0; [contradiction|]. destruct l; [left; reflexivity|]. right. apply IHl. discriminate. }
+      apply Hin. discriminate.
+    + destruct q as [|y q']; [simpl in Hlast; congruence|].
+      change (path_valid es (cur :: y :: q')) with (has_edge es cur y && path_valid es (y :: q')) in Hval.
+      apply andb_prop in Hval. destruct Hval as [He Hv]. destruct (has_edge_In es cur y He) as [tid [fw Hin]].
+      apply in_flat_map. exists (cur, y, tid, fw). split; [exact Hin|].
+      assert (Hnin : ~ In cur (y :: q')) by (inversion Hnd; assumption). assert (Hnd' : NoDup (y :: q')) by (inversion Hnd; assumption).
+      assert (Hy : zmem y (cur :: visited) = false).
+      { destruct (zmem y (cur :: visited)) eqn:Z; [|reflexivity]. apply zmem_In in Z. destruct Z as [Z|Z].
+        - exfalso. apply Hnin. left. symmetry. exact Z.
+        - exfalso. apply (Hvis y); [right; left; reflexivity | exact Z]. }
+      rewrite Z.eqb_refl, Hy. cbn [andb negb]. apply in_map. apply IH.
+      * reflexivity.
+      * discriminate.
+      * exact Hlast.
+      * exact Hv.
+      * exact Hnd'.
+      * intros v Hv0 [Hc|Hc]; [subst v; contradiction | apply (Hvis v); [right; exact Hv0 | exact Hc]].
+      * simpl in Hlen. simpl. lia.
+Qed.
+
+(* hence "no admissible path" is decided exactly: admissible_exists is true iff some simple walk of at most nodes+1 nodes is accepted *)
+Theorem admissible_exists_iff es nodes src tgt via avoid :
+  admissible_exists es nodes src tgt via avoid = true <->
+  exists p, (length p <= S nodes)%nat /\ path_ok es src tgt via avoid p = true.
+Proof.
+  unfold admissible_exists. rewrite existsb_exists. split.
+  - intros [p [Hin Hok]]. exists p. split; [|exact Hok].
+    assert (forall fuel cur visited q, In q (simple_paths fuel es cur tgt visited) -> (length q <= fuel)%nat) as Hlen.
+    { induction fuel as [|f IH]; intros cur visited q H; simpl in H; [contradiction|]. destruct (cur =? tgt)%Z.
+      - destruct H as [<-|[]]. simpl. lia.
+      - apply in_flat_map in H. destruct H as [[[[x y] tid] fw] [_ H]].
+        match type of H with context [if ?c then _ else _] => destruct c end; [|contradiction].
+        apply in_map_iff in H. destruct H as [q' [<- Hq]]. specialize (IH _ _ _ Hq). simpl. lia. }
+    exact (Hlen _ _ _ _ Hin).
+  - intros [p [Hlen Hok]]. exists p. split; [|exact Hok]. unfold path_ok in Hok. destruct p as [|h t]; [discriminate|].
+    rewrite !andb_true_iff in Hok. destruct Hok as [[[[[H1 H2] H3] H4] _] _]. apply Z.eqb_eq in H1, H2.
+    apply simple_paths_complete; [simpl; exact H1 | discriminate | exact H2 | exact H3 | | intros v _ [] | exact Hlen].
+    clear -H4. revert H4. generalize (h :: t). induction l as [|a l IHl]; intros H; [constructor|]. simpl in H. apply andb_prop in H. destruct H as [Ha Hl].
+    constructor; [|apply IHl; exact Hl]. intros Hin. apply zmem_In in Hin. rewrite Hin in Ha. discriminate.
+Qed.
